@@ -36,6 +36,28 @@ struct Mon<'a> {
 }
 
 impl<'a> Mon<'a> {
+    /// None when the constructor itself panics: whether a page of these dimensions can be built is C07's business, and
+    /// without a page there is nothing for the bounds rules to hold on (counted, so that the floors notice).
+    fn fresh_or_skip(id: u8, w: u32, h: u32, rep: &mut Report) -> Option<Mon<'static>> {
+        match catch(|| Mon::fresh(id, w, h)) {
+            Ok(m) => Some(m),
+            Err(_) => {
+                rep.count("pages_that_could_not_be_built");
+                None
+            }
+        }
+    }
+
+    fn borrowed_or_skip(w: u32, h: u32, bytes: &'a [u8], rep: &mut Report) -> Result<Option<Mon<'a>>, ()> {
+        match catch(std::panic::AssertUnwindSafe(|| Mon::borrowed(w, h, bytes))) {
+            Ok(m) => Ok(m),
+            Err(_) => {
+                rep.count("pages_that_could_not_be_built");
+                Err(())
+            }
+        }
+    }
+
     fn fresh(id: u8, w: u32, h: u32) -> Mon<'static> {
         let page = Page::new(PageId(id), w, h);
         let b = page.as_bytes();
@@ -236,7 +258,7 @@ fn exhaustive_size(id: u8, w: u32, h: u32, rep: &mut Report) {
     rep.case(Some(mix(u64::from(w) << 32 | u64::from(h), 0xC06)));
     rep.seen("sizes", u64::from(w) << 32 | u64::from(h));
     for start_full in [false, true] {
-        let mut m = Mon::fresh(id, w, h);
+        let Some(mut m) = Mon::fresh_or_skip(id, w, h, rep) else { return };
         m.compare(rep, false);
         if start_full {
             m.apply(&Op::Fill(true), rep);
@@ -270,7 +292,7 @@ fn exhaustive_size(id: u8, w: u32, h: u32, rep: &mut Report) {
     // area is ever written.
     for extra in [1usize, 16, 32] {
         let long: Vec<u8> = (0..refs::padded_len(w, h) + extra).map(|i| (i as u8).wrapping_mul(31) | 1).collect();
-        if let Ok(mut page) = Page::from_bytes(w, h, &long[..]) {
+        if let Ok(Ok(mut page)) = catch(std::panic::AssertUnwindSafe(|| Page::from_bytes(w, h, &long[..]))) {
             rep.count("overlong_pages_accepted_by_from_bytes");
             let data_end = 4 + (w as usize) * refs::col_bytes(h);
             for (x, y) in oob_coords(w, h) {
@@ -318,15 +340,19 @@ fn random_sequence(rng: &mut Rng, rep: &mut Report, max_ops: usize) {
     let saved = backing.clone();
     {
         let mut m = if borrowed {
-            match Mon::borrowed(w, h, &backing) {
-                Some(m) => m,
-                None => {
+            match Mon::borrowed_or_skip(w, h, &backing, rep) {
+                Err(()) => return,
+                Ok(Some(m)) => m,
+                Ok(None) => {
                     rep.violation(MON, "from_bytes_rejected_right_length", &format!("{}x{}", w, h), format!("from_bytes({}x{}) rejected {} bytes", w, h, backing.len()), J::Null);
                     return;
                 }
             }
         } else {
-            Mon::fresh(rng.u8(), w, h)
+            match Mon::fresh_or_skip(rng.u8(), w, h, rep) {
+                Some(m) => m,
+                None => return,
+            }
         };
         rep.case(Some(rng.next()));
         rep.count(if borrowed { "sequences_borrowed" } else { "sequences_fresh" });
@@ -388,6 +414,7 @@ pub fn run(ctx: &Ctx) -> Outcome {
         }
     });
     let floors = vec![
+        floor("every page asked for could be built (otherwise the bounds rules were not observed on those sizes)", report.get("pages_that_could_not_be_built") == 0, report.get("pages_that_could_not_be_built")),
         floor("every size of the box explored", report.get("box_sizes_done") == box_n as u64, report.get("box_sizes_done")),
         floor("all 11 real sizes explored", report.get("real_sizes_done") == 11, report.get("real_sizes_done")),
         floor("every op kind exercised", ["op/set", "op/clear", "op/fill", "op/get", "op/set_oob", "op/get_oob"].iter().all(|k| report.get(k) > 0), "set/clear/fill/get/set_oob/get_oob"),
